@@ -5,7 +5,7 @@ from lib.runner import Outcome
 from gen import records as R
 
 ID = "C05"
-LEAN_TARGETS = ["CLModel.Props.C05", "CLModel.Proofs.C05Props"]
+LEAN_TARGETS = ["CLModel.Props.C05", "CLModel.Proofs.C05Props", "CLModel.Proofs.C05Steps"]
 M = "CLModel.Props.C05"
 THEOREMS = [
     (M, "C05.parse_never_stuck", "for every regex format and every text the parser model terminates with a finite entry list (no hang)"),
@@ -15,44 +15,96 @@ THEOREMS = [
     (M, "C05.encoding_results_wellformed", "all results of the base check are warnings with a position inside the text"),
     (M, "C05.merge_no_type_error", "ContentComparer.merge never raises the None-span TypeError when every skip has a span"),
     (M, "C05.merge_type_error_iff", "…and raises it exactly when two or more skips are present and one has no span (Android: finding F5 of C04)"),
-    (M, "C05.compare_never_raises_partial", "the composed Except-valued model of ContentComparer.compare (parse, duplicates, AddRemove loop, base / properties checker, positions, observers, merge, updateStats) returns a report for ALL pairs of texts of ini/inc/po/properties, any file, any fresh observers/filters/quiet, with or without merge — unless a key is shared with a Junk of the reference (NoJunkClashT)"),
+    (M, "C05.checkerOK_fmt", "the checker of every format (base, PropertiesChecker, DTDChecker with ANY expat verdict function) answers for every pair of Entities compare hands to it, with positions the localized entity can resolve"),
+    (M, "C05.compare_never_raises_partial", "the composed Except-valued model of ContentComparer.compare (parse, duplicates, AddRemove loop, base / properties / DTD checker, positions, observers, merge, updateStats) returns a report for ALL pairs of texts of ini/inc/po/properties/dtd, any file, any fresh observers/filters/quiet, with or without merge, every expat and html.unescape — unless a key is shared with a Junk of the other file (NoJunkClashT); dtd texts must hold scalar values"),
     (M, "C05.compareTexts_never_raises_partial", "the same for the harness configuration (one unfiltered Observer, a.<ext>, locale de)"),
     (M, "C05.report_wellformed_partial", "every item of toJSON()['details'] of that report is an error/warning whose value is a str of one of the four message shapes with %d-formatted integer positions, or a missing/obsolete key"),
-    (M, "C05.ufffd_warned_end_to_end_partial", "for every shared key whose last localized entry contains U+FFFD the finished report has the warning '� in: <key> at line l, column c for <key>' (base and properties checker)"),
-    (M, "C05.lint_never_raises", "the composed model of L10nLinter.lint_file returns a result list for ALL texts of ini/inc/po/properties, with or without a reference (no hypothesis)"),
+    (M, "C05.base_in_results_fmt", "whatever the checker of a format yields for two Entities contains the results of the base check (PropertiesChecker and DTDChecker yield them first)"),
+    (M, "C05.ufffd_warned_end_to_end_partial", "for every shared key whose last localized entry contains U+FFFD the finished report has the warning '� in: <key> at line l, column c for <key>' (base, properties and DTD checker)"),
+    (M, "C05.lint_never_raises", "the composed model of L10nLinter.lint_file returns a result list for ALL texts of ini/inc/po/properties/dtd, with or without a reference, every expat (dtd: scalar text)"),
     (M, "C05.fileName_parser", "getParser('a.<ext>') selects the parser class of the format (generated constructor table)"),
-    (M, "C05.fileName_checker", "PropertiesChecker.pattern matches a.properties; no special checker pattern matches a.ini / a.inc / a.po (base Checker)"),
+    (M, "C05.fileName_checker", "PropertiesChecker.pattern matches a.properties, DTDChecker.pattern a.dtd; no special checker pattern matches a.ini / a.inc / a.po (base Checker)"),
     (M, "C05.junk_key_clash_raises", "negation witness for NoJunkClashT: reference 'abc' against '_junk_1_0-3=x' makes the model raise AttributeError, as the code does"),
     (M, "C05.ex_noClash", "NoJunkClashT holds on a text pair with junk + missing + obsolete + U+FFFD (non-vacuity)"),
+    (M, "C05.surrogate_raises", "negation witness for the scalar-text hypothesis: a lone surrogate in a shared DTD value makes value.encode('utf-8') raise inside DTDChecker.check (no file read by readFile has one)"),
+    (M, "C05.junk_keys_differ", "two Junk objects of the two files never have the same key: the class-wide counter value is part of the key and the format is injective — a clash needs an ENTITY whose key is literally a junk key"),
+    (M, "C05.clashFree_iff", "NoJunkClashT is decidable on the two texts, exactly: clashFree parses both and inspects the last entry of every shared key"),
+    (M, "C05.noClash_of_keys", "sufficient on each text alone, independent of expat / html.unescape: no string id begins with '_junk_'"),
+    (M, "C05.compare_never_raises", "compare never raises for all texts whose string ids do not begin with '_junk_' (decidable hypothesis instead of NoJunkClashT)"),
+    (M, "C05.compare_never_raises_po", "gettext: compare never raises, no hypothesis (keys are tuples, a Junk key is a str)"),
+    (M, "C05.decode_no_cr", "Parser.readFile: the decoded text has no carriage return (universal newlines)"),
+    (M, "C05.decode_scalar", "Parser.readFile: the decoded text holds Unicode scalar values only (errors='replace' never yields a surrogate)"),
+    (M, "C05.no_ufffd_wellformed", "if the decoded text has no U+FFFD the bytes were exactly its UTF-8 encoding: every ill-formed byte string leaves at least one U+FFFD"),
+    (M, "C05.invalid_yields_ufffd", "after a well-formed prefix, an ill-formed sequence is decoded to one U+FFFD for its first 1..3 bytes, then decoding goes on: nothing is dropped"),
+    (M, "C05.decode_encode", "well-formed UTF-8 is decoded to the text it encodes"),
+    (M, "C05.compare_never_raises_bytes_partial", "compare never raises from the BYTES of the two files (any bytes, invalid UTF-8 included; no scalar-text hypothesis left)"),
+    (M, "C05.lint_never_raises_bytes", "lint never raises from the bytes: no hypothesis at all"),
+    (M, "C05.ufffd_warned_from_bytes_partial", "U+FFFD is warned end to end starting from the bytes of the files"),
+    (M, "C05.parsed_never_raises", "the comparison core (after parsing) never raises and reports well-formed details for ANY checker whose check answers, without a junk-key clash, with spans to cut when merging"),
+    (M, "C05.parsed_ufffd_warned", "the comparison core warns about every U+FFFD of a shared entity for any checker that yields the base check's results"),
+    (M, "C05.compare_ftl_never_raises_partial", "Fluent, from the body fluent.syntax returned (entry kinds, spans, AST per Message/Term) on: compare never raises and every detail is well formed, every locale, with or without merge — unless a key is shared with a Junk"),
+    (M, "C05.ftl_noClash_of_keys", "Fluent: no clash when no Message / Term key begins with '_junk_' (identifiers begin with a letter, Term keys with '-')"),
+    (M, "C05.ufffd_warned_ftl_partial", "Fluent: U+FFFD in a shared entry is warned in the finished report"),
+    (M, "C05.compare_android_never_raises_partial", "Android, from the objects the walk over the minidom tree yields on: compare WITHOUT merge staging never raises and every detail is well formed — unless a key is shared with an XMLJunk"),
+    (M, "C05.ufffd_warned_android_partial", "Android: U+FFFD in a shared string is warned in the finished report"),
+    (M, "C05.android_noClash_of_keys", "Android: no clash when no name attribute begins with '_junk_'"),
+    (M, "C05.android_merge_raises", "negation witness (known finding F5-android-no-spans-raise): with merge staging two AndroidEntities in `skips` make the merge call raise TypeError (their span is (None, None))"),
+    (M, "C05.lint_android_never_raises", "Android: lint_file never raises, no hypothesis"),
+    (M, "C05.lint_ftl_never_raises_partial", "Fluent: lint_file never raises unless a FluentEntity shares its key with a Junk of the reference (decidable lintJunkClash)"),
+    (M, "C05.lint_ftl_parser_raises", "Fluent, when the external parser raises (RecursionError on ~200 nested placeables): lint_file yields the one error entry line 1 / column 1 / level error / str(e) (upstream fix 9f11b8c), for the reference as for the current file"),
+    (M, "C05.compare_ftl_parser_raises", "…and compare reports it as an error detail on ref_file (upstream fix d91dd73) or on l10n, without merging or counting: never raises"),
+    (M, "C05.remove_never_raises", "ContentComparer.remove never raises (any file, any filters)"),
+    (M, "C05.add_never_raises", "ContentComparer.add never raises for every text of a regex format, any file, any filters: the except branch around readFile/parse is never needed"),
+    ("CLModel.Proofs.C05Ext", "C05Ext.runFluent_ok", "FluentChecker.check (model of C08) answers for every pair of FluentEntities with positions they resolve, starting with the base check's results"),
+    ("CLModel.Proofs.C05Ext", "C05Ext.runAndroid_ok", "AndroidChecker.check (model of C09) answers for every pair of AndroidEntities, starting with the base check's results"),
+    ("CLModel.Proofs.C05Steps", "C05Steps.mS_sim", "the step-counting regex engine of the guard explores the same search as the engine all parser models run on: within its budget it returns the same verdict"),
+    ("CLModel.Proofs.C05Steps", "C05Steps.matchSteps_sound", "a step count reported by the guard is the count of a search whose verdict is that of Pattern.match in the model"),
     ("CLModel.Proofs.C05Props", "Pipe.unescape_eq_propsVal", "the unescape model used by the properties checker (C06) equals the one of C02 on every text, hence is total"),
     ("CLModel.Proofs.C05Props", "Pipe.check_shape", "PropertiesChecker.check never raises and yields the base check results first"),
+    ("CLModel.Proofs.C05Dtd", "C05Dtd.check_no_exc", "DTDChecker.check (model of C07) raises nothing on scalar texts without 'android-dtd', whatever expat answers: the lines[lnr-1] IndexError is gone (f80b06f), only UnicodeEncodeError on a lone surrogate is left"),
+    ("CLModel.Proofs.C05Dtd", "C05Dtd.utf8_some_iff", "str.encode('utf-8') succeeds exactly on texts of scalar values"),
+    ("CLModel.Proofs.C05Decode", "C05Dec.step_cases", "one step of CPython's UTF-8 decoder with errors='replace': the encoding of one scalar value is taken, or 1..3 bytes become one U+FFFD"),
 ]
 PARTIAL = [
-    "one composed Except-valued model (CLModel/Compare/Pipeline.lean: compareFiles / compareTexts / lintText) exists for ini, inc, po and "
-    "properties and is tied to the real ContentComparer.compare + toJSON() + merge file and to L10nLinter.lint_file by correspondence; "
-    "the end-to-end theorems are proved for these four; dtd (expat), ftl (fluent.syntax), android (minidom) are not in "
-    "the composed model: for them 'never raises / report well-formed' is decided by the execution oracle under the watchdog",
-    "compare_never_raises / report_wellformed / ufffd_warned_end_to_end carry the hypothesis NoJunkClashT (no shared key belongs to a Junk "
-    "of the reference): without it the statement is false for the code (Junk has no `equals`: AttributeError, finding "
-    "F8-junk-key-clash-raise; negation witness C05.junk_key_clash_raises, probed on the real code by the directed family 'junk-key-clash')",
-    "the end-to-end theorems cover ini, inc, po and properties; for properties the missing piece of C06 (totality of its unescape model) "
-    "is proved here (Pipe.unescape_eq_propsVal)",
-    "decoding (bytes -> text, errors='replace', universal newlines) is outside the model: the model texts are read off Parser.readFile",
+    "one composed Except-valued model (CLModel/Compare/Pipeline.lean) covers ini, inc, po, properties and dtd from the TEXT on (from the BYTES "
+    "with Compare/Decode.lean), Fluent and Android from the external parser's output on (resource.body with AST summaries / the objects of the "
+    "walk over the minidom tree): fluent.syntax and minidom themselves are not modelled (input contract FtlBodyOK), expat and html.unescape are "
+    "parameters of the model (every theorem holds for every value of them; the driver uses the tables observed in the real run)",
+    "compare_never_raises / report_wellformed / ufffd_warned_end_to_end carry the hypothesis NoJunkClashT (no shared key belongs to a Junk): "
+    "without it the statement is false for the code (Junk has no `equals`: AttributeError, finding F8-junk-key-clash-raise; negation witness "
+    "C05.junk_key_clash_raises).  The hypothesis is decidable exactly (clashFree_iff) and follows from 'no string id begins with _junk_' "
+    "(compare_never_raises); gettext needs none (compare_never_raises_po); two Junks of the two files never clash (junk_keys_differ).  Not "
+    "proved: .inc without hypothesis, and 'clash => raises' as a theorem",
+    "dtd: texts must hold scalar values (str.encode raises on a lone surrogate: surrogate_raises); from bytes this is a theorem (decode_scalar); "
+    "DTDChecker with extra_tests=['android-dtd'] is outside the pipeline (compare passes extra_tests=None; C07 covers processAndroidContent)",
+    "Android: compare_android_never_raises_partial is stated WITHOUT merge staging: with it two skipped AndroidEntities make merge raise TypeError "
+    "(known finding F5-android-no-spans-raise, witness android_merge_raises)",
+    "termination: proved for the regex parsers' outer loops (parse_never_stuck); the running time of a single regex match is guarded, not proved: "
+    "long-run inputs under a deadline plus the step-counting engine (C05Steps.mS_sim: same search as the model engine) with the bound "
+    "'doubling a run at most quadruples the steps' over all generated regexes",
 ]
 TRUSTED = [
-    "codecs / open(errors='replace') replace undecodable bytes (CPython); expat, minidom, fluent.syntax are external",
+    "CPython's codecs / TextIOWrapper are modelled by Pipe.decode (tied by the c05.decode stream on random bytes), not proved against CPython",
+    "expat, html.unescape (parameters), minidom, fluent.syntax (inputs) are external",
     "subprocess watchdog observes hangs (deadline, retried with 10x)",
 ]
-ASSUMPTIONS = []
-LEVEL_TEXT = ("Lean 4 theorems about ONE composed Except-valued model of compare(+merge staging)+toJSON and of lint for ini, inc, po, properties: never raises "
-              "on any pair of texts (outside the junk-key clash, a recorded finding), report items well formed, U+FFFD warned end to end; the "
-              "model is tied to the real code by differential correspondence of the whole report; all seven file types "
-              "additionally run under an execution oracle over structured, mutated and arbitrary byte pairs with a watchdog")
-LEVEL_NOTE = "trusted: Lean kernel, regex model, CPython codecs and the external XML/Fluent parsers; the end-to-end claim is sampled, not proved"
-TECHNIQUE = "Lean 4 proof over one composed Except-valued pipeline model + differential correspondence + watchdog-supervised execution oracle on arbitrary byte pairs"
+ASSUMPTIONS = [
+    "Fluent input contract FtlBodyOK: every Message / Term of resource.body comes with its AST (what fluent.syntax returns)",
+]
+LEVEL_TEXT = ("Lean 4 theorems about ONE composed Except-valued model of compare(+merge staging)+toJSON, lint, add and remove: never raises on any pair "
+              "of texts / byte strings of ini, inc, po, properties, dtd (every expat verdict, every html.unescape) and on every parser output of "
+              "Fluent / Android (outside the junk-key clash and Android merge staging, recorded findings with kernel-checked witnesses), report "
+              "items well formed, U+FFFD warned end to end from the bytes, readFile's decoding characterised; the model is tied to the real code "
+              "by differential correspondence of the whole report for all seven file types, add/remove/filters and decoding; all seven file types "
+              "additionally run under an execution oracle over structured, mutated, arbitrary and long-run byte pairs with a watchdog, and every "
+              "regex of the code base under a step-count guard")
+LEVEL_NOTE = ("trusted: Lean kernel, regex model (validated differentially), the decode model vs CPython, the external XML/Fluent parsers as "
+              "inputs; termination of single regex matches is guarded by sampling, not proved")
+TECHNIQUE = ("Lean 4 proof over one composed Except-valued pipeline model (externals as parameters) + differential correspondence of whole reports "
+             "+ watchdog-supervised execution oracle on arbitrary and long-run byte pairs + step-counting regex guard")
 
 FORMATS = ["properties", "dtd", "ini", "inc", "ftl", "po", "android"]
-PIPE_FORMATS = ("ini", "inc", "po", "properties")      # formats of the composed model (CLModel/Compare/Pipeline.lean)
+PIPE_FORMATS = ("ini", "inc", "po", "properties", "dtd")      # formats of the composed model from the TEXT on (CLModel/Compare/Pipeline.lean)
 BAD_BYTES = [b"\xff", b"\xfe\xff", b"\xc3", b"\xe2\x82", b"\x00", b"\xef\xbf\xbd", b"\xed\xa0\x80", b"\x80", b"\xf0\x9f"]
 
 
@@ -214,7 +266,8 @@ def gen_cases(ctx):
         add("po", ref, l10n, "po-repr")
     # (iii) properties: printf / plural / escape findings (errors become skips when merging), duplicates, key bindings
     PV = [("%S and %S", ["%S und %S", "%d und", "%S", "%1$S %S", "100%"]), ("%1$S of %2$S", ["%2$S von %1$S", "%3$S", "%1$S"]),
-          ("#1 item;#1 items", ["#1 Ding;#1 Dinge", "#2 Ding", "ein Ding", "#1;#1;#1"]), ("plain", ["schlicht \\q", "a\\u00e9b", "x\\\n  y", "w�"]),
+          ("#1 item;#1 items", ["#1 Ding;#1 Dinge", "#2 Ding", "ein Ding", "#1;#1;#1", "#1 #2 Ding;#1 #2 Dinge", "#1 a;#1 b;#1 c;#1 d"]),
+          ("%1$S of %2$S in %3$S", ["%1$S von %3$S", "%3$S %1$S", "%1$S %2$S %3$S"]), ("plain", ["schlicht \\q", "a\\u00e9b", "x\\\n  y", "w�"]),
           ("50%", ["50 %", "%"]), ("", ["", " "]), ("a<b>c</b>d e", ["x<i>y</i>z", "a<b>c</b>d e"]), ("one<br>two", ["eins<br>zwei"])]
     for i in range(ctx.n(80, 800)):
         n = rng.randrange(1, 5)
@@ -252,17 +305,185 @@ def gen_cases(ctx):
         l10k = [k for k in ks if rng.random() < 0.8] + ([rng.choice(ks)] if rng.random() < 0.3 else []) + (["zz"] if rng.random() < 0.3 else [])
         rng.shuffle(l10k)
         add(fmt, body(ks, False), body(l10k, True), "%s-directed" % fmt)
+    # (v) dtd for the composed model: valid records, junk, broken XML values, U+FFFD, empty values, duplicate keys,
+    #     key-like ids, entity references known / unknown, numbers / lengths / CSS specs, apostrophe-delimited values, a PE
+    DV = [("plain text", ["einfach", "a & b", "a &amp; b", "<b>fett", "<b>f</b>", "w�", "", "x &lt; y", "50%", "&#8230;", "&#x;", "&"]),
+          ("see &brandShortName;", ["siehe &brandShortName;", "siehe &brandFullName;", "siehe &brandShortName", "&amp;brandShortName;", "siehe &vendor; &brandShortName;",
+                                    "siehe &vendorShortName;", "&vendorShortName; und &brandShortName;"]),
+          ("by &vendorShortName;", ["von &vendorShortName;", "von &brandShortName;", "von"]),
+          ("10", ["12", "zwölf", "1.5", ".5", "10\n"]), ("20em", ["22em", "22", "2.5ch", "em", ""]),
+          ("width: 20em; height: 10px", ["width: 22em; height: 12px", "width: 22em", "width:22em height:1px", "width: 22px; height: 12px;", "breit", "width: 22em; depth: 1em"]),
+          ("<a href='x'>link</a>", ["<a href='x'>Verweis</a>", "<a href=x>V</a>", "<a>V", "V</a>"]), ("", ["", " ", "x"]), ("two words", ["zwei Worte", "zwei\nWorte", "&lt;zwei&gt;"])]
+    DKEYS = ["a", "b.label", "c.accesskey", "cmd.commandKey", "ö", "w:x", "_junk_1_0-3", "brandShortName", "a-b", "x.y.z"]
+    for i in range(ctx.n(220, 2500)):
+        n = rng.randrange(1, 5)
+        ks = rng.sample(DKEYS, n)
+        refl, l10l = [], []
+        for k in ks:
+            rv, lvs = rng.choice(DV)
+            q = rng.choice(['"', '"', "'"])
+            if q in rv:
+                q = '"' if q == "'" else "'"
+            c = rng.choice(["", "", "<!-- note -->\n", "<!-- two\nlines -->\n"])
+            refl.append("%s<!ENTITY %s %s%s%s>\n" % (c, k, q, rv, q))
+            r = rng.random()
+            lv = rng.choice(lvs + [rv])
+            lq = '"' if '"' not in lv else "'"
+            if r < 0.8:
+                l10l.append("%s<!ENTITY%s%s %s%s%s>\n" % (rng.choice(["", "", "<!-- c� -->\n", "<!-- a\nb -->\n"]), rng.choice([" ", "\n", "  "]), k, lq, lv, lq))
+            if r > 0.88:
+                lv2 = rng.choice(lvs)
+                l10l.append('<!ENTITY %s "%s">\n' % (k, lv2.replace('"', "'")))
+            if rng.random() < 0.12:
+                l10l.append(rng.choice(["stray text\n", "<!ENTITY broken \n", '<!ENTY x "y">\n', "<!ENTITY k 'open\n", "%foo;\n", "<!-- open\n"]))
+        if rng.random() < 0.15:
+            refl.insert(0, rng.choice(['<!ENTITY % brandDTD SYSTEM "chrome://branding/locale/brand.dtd">\n%brandDTD;\n', "junk in en-US\n", "\ufeff"]))
+        if rng.random() < 0.15:
+            l10l.insert(0, rng.choice(['<!ENTITY % brandDTD SYSTEM "chrome://branding/locale/brand.dtd">\n%brandDTD;\n', "\ufeff", "<!-- License -->\n"]))
+        if rng.random() < 0.2:
+            l10l.append('<!ENTITY extra%d "x">\n' % i)
+        add("dtd", "".join(refl), "".join(l10l), "dtd-directed")
+    # (vii) Fluent: values / attributes / references / select expressions / terms / style attributes on both sides
+    FV = ["Text", "zwei Worte", "{ $n } Dinge", "{ other }", "{ other.title }", "{ -brand }", "{ -brand.gender }", "w�",
+          "{ $n ->\n        [one] eins\n       *[other] viele\n    }", "{ $n ->\n        [one] a\n        [one] b\n       *[other] c\n    }",
+          "{ $n ->\n        [1] a\n       *[few] c\n    }", "{ $n ->\n        [one] a\n       *[many] c\n    }",
+          "{ -brand.gender ->\n        [f] sie\n       *[m] er\n    }", "{ other.title }", "{ NUMBER($n, type: \"ordinal\") }", "{ \"lit\" }", "{ -t(case: \"acc\") }", ""]
+    FA = ["    .title = T", "    .label = L { other }", "    .style = width: 10em", "    .style = width: 10em; height: 2px", "    .style = breit",
+          "    .style = { $n }", "    .title = T\n    .title = U", "    .accesskey = K", "    .style = width: 10px height: 1px"]
+    for i in range(ctx.n(200, 2400)):
+        ids = rng.sample(["a", "b-c", "other", "label1", "m5"], rng.randrange(1, 4))
+        def ftl(ids, l10n):
+            out = []
+            for k in ids:
+                if l10n and rng.random() < 0.15:
+                    continue
+                v = rng.choice(FV)
+                attrs = [rng.choice(FA) for _ in range(rng.choice([0, 0, 1, 1, 2, 3]))]
+                if not v and not attrs:
+                    attrs = [rng.choice(FA)]
+                out.append(rng.choice(["", "", "# c\n"]) + "%s =%s\n" % (k, (" " + v) if v else "") + "".join(a + "\n" for a in attrs))
+                if l10n and rng.random() < 0.1:
+                    out.append(rng.choice(["!!! junk\n", "= nokey\n", "   \n", "k = { \n"]))
+            if rng.random() < 0.5:
+                tv = rng.choice(["Marke", "{ $case ->\n        [nom] M\n       *[acc] Mn\n    }", "{ other }", "{ -brand }", "{ $n ->\n [one] x\n [one] y\n *[other] z\n }"])
+                out.append("-brand = %s\n%s" % (tv, rng.choice(["", "    .gender = f\n", "    .gender = f\n    .gender = m\n", "    .style = { $n ->\n [a] x\n *[a] y\n }\n"])))
+            if l10n and rng.random() < 0.2:
+                out.append("extra%d = x\n" % i)
+            rng.shuffle(out)
+            return "".join(out)
+        add("ftl", ftl(ids, False), ftl(ids, True), "ftl-directed")
+    # (viii) Android: translatable attribute, @string references, CDATA / mixed content, quotes, apostrophes, printf
+    AV = ["plain", "%1$s of %2$d", "%s and %s", "%1$s %1$d", "%1$s %1$s", "@string/foo", "it's", "it\\'s", '\"\" x', '\\"\" x', '"quoted it\'s"',
+          "<![CDATA[ <b>x</b> ]]>", " <![CDATA[a]]> ", "<![CDATA[a]]><![CDATA[b]]>", "x <![CDATA[a]]>", "<![CDATA[a]]><b>x</b>", " <![CDATA[a]]> <!-- c -->", "<b>x</b>y", "<b>x</b>", "", "w�",
+          "%d %%", "%.2f", "%3$s", "a &amp; b", "%s", "%1$s"]
+    AH = '<?xml version="1.0" encoding="utf-8"?>\n<resources>\n'
+    for i in range(ctx.n(200, 2400)):
+        ks = rng.sample(["a", "b_c", "title", "key4", "_junk_1_0-0"], rng.randrange(1, 4))
+        def axml(ks, l10n):
+            out = [AH]
+            for k in ks:
+                if l10n and rng.random() < 0.15:
+                    continue
+                if rng.random() < 0.2:
+                    out.append("  <!-- c%s -->\n" % ("�" if l10n and rng.random() < 0.3 else ""))
+                tr = rng.choice(["", "", "", ' translatable="false"', ' translatable="true"'])
+                out.append('  <string name="%s"%s>%s</string>\n' % (k, tr, rng.choice(AV)))
+                if l10n and rng.random() < 0.12:
+                    out.append(rng.choice(["  <foo/>\n", "  <string>noname</string>\n", '  <plurals name="p"><item quantity="one">x</item></plurals>\n', "  stray text\n"]))
+            if l10n and rng.random() < 0.2:
+                out.append('  <string name="extra%d">x</string>\n' % i)
+            out.append("</resources>\n")
+            return "".join(out)
+        ref, l10n = axml(ks, False), axml(ks, True)
+        if rng.random() < 0.06:
+            l10n = rng.choice(["not xml", "<resources>", '<?xml version="1.0"?><other/>', ""])
+        add("android", ref, l10n, "android-directed")
+    # (ix) Fluent placeables nested deeper than Python's recursion limit allows fluent.syntax to follow: the external parser raises
+    deep = "k = " + "{ " * 200 + "\n"
+    add("ftl", "k = v\n", deep, "ftl-deep-nesting", merge=False)
+    add("ftl", deep, "k = v\n", "ftl-deep-nesting-ref", merge=False)
+    add("ftl", deep, deep, "ftl-deep-nesting-ref", merge=True)
+    # (vi) the localization is a copy of a reference that contains junk: the same junk at the same offsets in both files.
+    #      (`Junk.key` embeds the class-wide counter, so the two Junk objects still have different keys)
+    for fmt in FORMATS:
+        for i in range(ctx.n(14, 120)):
+            recs, kinds = R.gen_reference(fmt, rng, n=rng.randrange(1, 4))
+            text = R.print_file(fmt, recs)
+            lines_ = text.split("\n")
+            for _ in range(rng.randrange(1, 3)):
+                g = rng.choice(R.GARBAGE[fmt]).rstrip("\n")
+                if fmt == "android":
+                    pos = rng.randrange(2, max(3, len(lines_) - 1))
+                elif fmt == "ini":
+                    pos = rng.randrange(1, len(lines_) + 1)
+                else:
+                    pos = rng.randrange(0, len(lines_) + 1)
+                lines_.insert(min(pos, len(lines_)), g)
+            text = "\n".join(lines_)
+            l10n = text
+            if rng.random() < 0.4:       # same junk, same offsets, something else changed behind it
+                l10n = text + rng.choice(["\n", "", R.print_file(fmt, [("zz9", "v", None)]) if fmt not in ("android",) else ""])
+            add(fmt, text, l10n, "junk-copy")
+    return cases
+
+
+# ---------------------------------------------------------------- long runs: where a regex can fail late
+LONG_OPENERS = {
+    "po": ['msgid "', 'msgid "a"\nmsgstr "', 'msgctxt "', "# ", "#~ ", 'msgid "x\\', 'msgid ""\n"', ""],
+    "dtd": ['<!ENTITY k "', "<!ENTITY k '", "<!--", "<!ENTITY ", "<!ENTITY k ", '<!ENTITY % k SYSTEM "', '<!ENTITY k "v"', "&", ""],
+    "properties": ["k = ", "k", "# ", "! ", "k = v\\", "k = \\u", "k = v\\\n", ""],
+    "ini": ["[Strings]\nk=", "[Strings]\n", "[", "; ", "# ", "[Strings]\nk", ""],
+    "inc": ["#define k ", "#define ", "# ", "#filter ", "#define k v\n", ""],
+    "ftl": ["k = ", "k = { ", "k = { $", "# ", "-t = ", "k =\n    .a = ", 'k = { "', "k = {", ""],
+    "android": ['<resources><string name="a">', "<resources><!--", '<resources><string name="', '<?xml version="1.0"?><resources>',
+                '<resources><string name="a"><![CDATA[', ""],
+}
+LONG_RUNS = ["a", " ", "\\", '"', "'", "-", "&", "%", "<", "0", "=", ";", "\\u00", "ab ", "a\\", '\\"', "\t", "é", "&a;", "a-", "\\\\", "\\n",
+             "{", "}", "\r", "]", "\\P", "x.", ">"]
+LONG_TAILS = ["", "\n", "\\", '\\P"\n', "\nk = v\n"]
+
+
+def gen_long(ctx, wave):
+    """(format, opener, run) -> text: a long run (wave 1: 40-60, wave 2: 120-200 characters) of one token class in a lexical state
+    that the opener enters and nothing leaves: unterminated strings / values / comments / entities / escapes"""
+    rng = ctx.rng("c05-long", wave)
+    cases = []
+    for fmt in FORMATS:
+        combos = [(o, r) for o in LONG_OPENERS[fmt] for r in LONG_RUNS]
+        rng.shuffle(combos)
+        take = combos[:ctx.n(44 if wave == 1 else 16, len(combos))]
+        for o, r in take:
+            n = rng.randrange(40, 61) if wave == 1 else rng.randrange(120, 201)
+            l10n = o + (r * n)[:n if len(r) == 1 else n * 2] + rng.choice(LONG_TAILS)
+            recs, _ = R.gen_reference(fmt, rng, n=1)
+            ref = R.print_file(fmt, recs) if rng.random() < 0.6 else l10n
+            cases.append({"fmt": fmt, "ref": ref.encode("utf-8").decode("latin-1"), "l10n": l10n.encode("utf-8").decode("latin-1"),
+                          "merge": rng.random() < 0.5, "tag": "long-run", "state": (fmt, o)})
     return cases
 
 
 def finding_of(case, stage, info):
     if case["fmt"] == "android" and stage == "compare" and info.get("exc") == "TypeError" and any("merge" in w for w in info.get("where", [])):
         return "F5-android-no-spans-raise"
+    # root cause: fluent.syntax is a recursive-descent parser; placeables nested ~200 deep exceed Python's recursion limit and the
+    # RecursionError leaves FluentParser.walk.  `compare` catches it (try/except around readFile + parse -> an "error" detail),
+    # `L10nLinter.lint_file` does not.  (The harness's own re-parse for the U+FFFD oracle hits the same exception: stage "ufffd".)
+    if case["fmt"] == "ftl" and stage in ("lint", "lint_noref", "adapter") and info.get("exc") == "RecursionError" \
+            and any(("parser.py" in w or "stream.py" in w) for w in info.get("where", [])):
+        return "C05-ftl-deep-nesting-lint-recursion"          # repaired upstream (9f11b8c): a fresh violation if it comes back
+    # the same exception while the REFERENCE is parsed inside compare: `ref_entities = p.parse()` is outside the try block
+    if case["fmt"] == "ftl" and stage == "compare" and info.get("exc") == "RecursionError" \
+            and any(("parser.py" in w or "stream.py" in w) for w in info.get("where", [])) and "{ " * 150 in case["ref"]:
+        return "C05-ftl-deep-nesting-reference-compare-recursion"      # repaired upstream (d91dd73): a fresh violation if it comes back
     if case["fmt"] == "dtd" and info.get("exc") == "IndexError" and any("dtd.py" in w for w in info.get("where", [])):
         return "F9-dtd-empty-value-index"
-    # root cause: an object of class Junk is used where the loop expects an Entity (it has no equals / value_position /
-    # pre_comment): only possible when a key is shared between a Junk of one file and an entry of the other
-    if stage == "compare" and info.get("exc") == "AttributeError" and "'Junk' object has no attribute" in (info.get("msg") or ""):
+    # root cause of F8: an object of class Junk is used where the loop expects an Entity (it has no equals / value_position /
+    # pre_comment / entry / node) BECAUSE the key of an ENTITY of one file is literally the counter-embedding key text
+    # `_junk_<n>_<a>-<b>` of a Junk of the other file (`entity_junk_clash`, decided by the adapter on the input with the
+    # real parser).  Two Junk objects of the two files never share a key in the unchanged code (theorem
+    # C05.junk_keys_differ): an AttributeError on a Junk without such an entity is a DIFFERENT defect and stays a fresh violation.
+    if stage == "compare" and info.get("exc") == "AttributeError" and "Junk' object has no attribute" in (info.get("msg") or "") \
+            and info.get("entity_junk_clash") is True:
         return "F8-junk-key-clash-raise"
     return None
 
@@ -284,21 +505,17 @@ def oracle(case, r):
     return out
 
 
-def run(ctx):
-    out = Outcome()
-    out.rule = ("per file type: reference and localization from the record generators, then byte-level mutations (delete/insert/duplicate/"
-                "splice, invalid UTF-8 sequences, NULs, unbalanced quotes and tags), truncation, arbitrary bytes on one or both sides; "
-                "half of the cases with merge staging; non-trivial = the comparison produced at least one detail or lint result; "
-                "distinct = distinct (format, localized bytes)")
-    cases = gen_cases(ctx)
-    res = pool.pmap("impl.robust", "impl_robust", [[c["fmt"], c["ref"], c["l10n"], c["merge"]] for c in cases],
-                    timeout=10.0, batch=8)
+def judge(out, cases, res):
+    """the execution oracle on the results of impl_robust"""
+    hung = []
     for c, r in zip(cases, res):
         out.evaluations += 1
         out.count("%s.%s" % (c["fmt"], c["tag"]))
         bad = oracle(c, r)
+        if r.get("exc") == "Hang":
+            hung.append(c)
         for msg, fid in bad[:3]:
-            out.violations.append({"what": "%s: %s" % (c["fmt"], msg), "input": c, "finding": fid})
+            out.violations.append({"what": "%s: %s" % (c["fmt"], msg), "input": {k: v for k, v in c.items() if k != "state"}, "finding": fid})
             out.count("violation." + (fid or "NEW"))
         if "r" in r:
             v = r["r"]
@@ -306,41 +523,97 @@ def run(ctx):
                 out.nontrivial.add((c["fmt"], c["l10n"]))
             if len(out.samples) < 8 and c["tag"] in ("l10n-mutated", "ufffd") and v.get("n_details", 0) > 1 and not bad:
                 out.samples.append({"fmt": c["fmt"], "l10n_bytes_latin1": c["l10n"][:300], "summary": v.get("summary"), "lint_results": v.get("n_lint")})
-    # ---- correspondence of the composed pipeline model (compare + toJSON + merge outcome, lint with / without reference)
-    pcases = [c for c in cases if c["fmt"] in PIPE_FORMATS]
-    pres = pool.pmap("impl.pipeline", "impl_pipeline", [[c["fmt"], c["ref"], c["l10n"], c["merge"]] for c in pcases],
-                     timeout=10.0, batch=8)
+    return hung
+
+
+def fresh_oracle(out, c, r0):
+    """on the runs of the pipeline adapters (fresh-process state: Junk.junkid = 0): neither compare nor lint raises or hangs"""
+    r = r0.get("r", r0)
+    ci = {k: v for k, v in c.items() if k != "state"}
+    if r0.get("exc") == "Hang":
+        out.violations.append({"what": "%s: comparison/lint (fresh junk counter) does not terminate" % c["fmt"], "input": dict(ci, fresh=True), "finding": None})
+        return
+    if r0.get("exc"):
+        fid = finding_of(c, "adapter", r0)
+        out.violations.append({"what": "%s: adapter raised %s: %s at %s" % (c["fmt"], r0.get("exc"), r0.get("msg"), r0.get("where")),
+                               "input": dict(ci, fresh=True), "finding": fid})
+        out.count("violation." + (fid or "NEW"))
+        return
+    for stage in ("compare", "lint", "lint_noref"):
+        info = r.get(stage + "_exc")
+        if info:
+            fid = finding_of(c, "compare" if stage == "compare" else stage, info)
+            out.violations.append({"what": "%s: %s (fresh junk counter) raised %s: %s at %s" % (
+                c["fmt"], stage, info["exc"], info["msg"], info["where"]), "input": dict(ci, fresh=True), "finding": fid})
+            out.count("violation." + (fid or "NEW"))
+
+
+def drive(out, lines, what):
+    """the native driver on `lines`; a model that does not answer in time is a disagreement, not a crash of the check"""
+    import subprocess
+    try:
+        return C.run_driver_parallel(lines, timeout=420)
+    except subprocess.TimeoutExpired:
+        out.disagreements.append({"op": what, "impl": "answered", "model": "no answer within 420 s (a regex of the regenerated model backtracks without end?)"})
+        out.count("pipeline.disagree.model-timeout")
+        return None
+
+
+MISSING_ATTR = C.enc("Missing attribute: ")[2:]      # code points of the prefix, as they appear inside an encoded text
+
+
+def canon_set_order(s):
+    """FluentChecker reports the attributes missing in the localization by iterating over a Python `set` (`ref_attrs -
+    l10n_attrs`): the order of these items (all at position 0, kept adjacent by the stable sort) is the hash order, which the
+    model does not reproduce (it lists them in the reference's order, see NOTES-C08).  Both sides are normalised: every run of
+    adjacent items that carry the text "Missing attribute: " is sorted."""
+    import re
+    if MISSING_ATTR not in s:
+        return s
+    if " details[" in s:
+        a = s.index(" details[") + len(" details[")
+        b = s.rindex("] merge=")
+        m = re.search(r"(?:error|warning|missingEntity|obsoleteEntity|missingFile|obsoleteFile)=", s[a:b])
+        if not m:
+            return s
+        a += m.start()
+    elif s.startswith("ok "):
+        a, b = 3, len(s)
+    else:
+        return s
+    toks = s[a:b].split("|")
+    i = 0
+    while i < len(toks):
+        j = i
+        while j < len(toks) and MISSING_ATTR in toks[j]:
+            j += 1
+        if j > i + 1:
+            toks[i:j] = sorted(toks[i:j])
+        i = max(j, i + 1)
+    return s[:a] + "|".join(toks) + s[b:]
+
+
+def diff_stream(out, ctx, pcases, pres, mk_lines, prefix):
+    """whole-report correspondence: compare / lint with reference / lint without, model vs implementation"""
     lines, idx = [], []
     for i, (c, r) in enumerate(zip(pcases, pres)):
         r = r.get("r", r)
         if "ref_text" not in r:
-            continue            # the adapter itself failed or hung: the execution oracle above reports it
-        lines.append("c05.compare %s %s %s %d" % (c["fmt"], C.enc(r["ref_text"]), C.enc(r["l10n_text"]), 1 if c["merge"] else 0))
-        idx.append((i, "compare"))
-        lines.append("c05.lint %s %s %s" % (c["fmt"], C.enc(r["ref_text"]), C.enc(r["l10n_text"])))
-        idx.append((i, "lint"))
-        lines.append("c05.lint %s - %s" % (c["fmt"], C.enc(r["l10n_text"])))
-        idx.append((i, "lint_noref"))
-    # oracle on the same runs (fresh-process state: Junk.junkid = 0): neither compare nor lint raises or hangs
+            continue            # the adapter itself failed or hung: reported by fresh_oracle
+        for k, line in mk_lines(c, r):
+            lines.append(line)
+            idx.append((i, k))
     for c, r0 in zip(pcases, pres):
-        r = r0.get("r", r0)
-        if r0.get("exc") == "Hang":
-            out.violations.append({"what": "%s: comparison/lint (fresh junk counter) does not terminate" % c["fmt"], "input": c, "finding": None})
-            continue
-        for stage in ("compare", "lint", "lint_noref"):
-            info = r.get(stage + "_exc")
-            if info:
-                fid = finding_of(c, "compare" if stage == "compare" else stage, info)
-                out.violations.append({"what": "%s: %s (fresh junk counter) raised %s: %s at %s" % (
-                    c["fmt"], stage, info["exc"], info["msg"], info["where"]), "input": dict(c, fresh=True), "finding": fid})
-                out.count("violation." + (fid or "NEW"))
-    model = C.run_driver_parallel(lines) if ctx.model_ok else []
+        fresh_oracle(out, c, r0)
+    model = (drive(out, lines, prefix) or []) if ctx.model_ok else []
     for (i, k), mo in zip(idx, model):
         c, r = pcases[i], pres[i].get("r", pres[i])
         out.evaluations += 1
         im = r[k]
+        if c["fmt"] == "ftl":
+            im, mo = canon_set_order(im), canon_set_order(mo)
         if im != mo:
-            out.disagreements.append({"op": "c05." + k, "fmt": c["fmt"], "tag": c["tag"], "merge": c["merge"],
+            out.disagreements.append({"op": "%s.%s" % (prefix, k), "fmt": c["fmt"], "tag": c["tag"], "merge": c["merge"],
                                       "ref": r["ref_text"][:400], "l10n": r["l10n_text"][:400], "impl": im[:600], "model": mo[:600]})
             out.count("pipeline.disagree.%s.%s" % (c["fmt"], k))
         elif k == "compare" and ("details[]" not in im):
@@ -348,6 +621,255 @@ def run(ctx):
         out.count("pipeline.%s.%s" % (c["fmt"], k))
         if im.startswith("raise"):
             out.count("pipeline.raise.%s" % im.split()[1])
+
+
+def lines_regex(c, r):
+    ext = (" " + r["ext"]) if r.get("ext") else ""      # dtd: expat verdicts + html.unescape values observed in the real run
+    m = 1 if c["merge"] else 0
+    return [("compare", "c05.compare %s %s %s %d%s" % (c["fmt"], C.enc(r["ref_text"]), C.enc(r["l10n_text"]), m, ext)),
+            ("lint", "c05.lint %s %s %s%s" % (c["fmt"], C.enc(r["ref_text"]), C.enc(r["l10n_text"]), ext)),
+            ("lint_noref", "c05.lint %s - %s%s" % (c["fmt"], C.enc(r["l10n_text"]), ext))]
+
+
+def lines_ftl(c, r):
+    m = 1 if c["merge"] else 0
+    return [("compare", "c05.cmpftl %s %s %d %s %s" % (C.enc(r["ref_text"]), C.enc(r["l10n_text"]), m, r["ref_body"], r["l10n_body"])),
+            ("lint", "c05.lintftl %s %s %s %s" % (C.enc(r["l10n_text"]), r["l10n_body"], C.enc(r["ref_text"]), r["ref_body"])),
+            ("lint_noref", "c05.lintftl %s %s -" % (C.enc(r["l10n_text"]), r["l10n_body"]))]
+
+
+def lines_android(c, r):
+    m = 1 if c["merge"] else 0
+    return [("compare", "c05.cmpxml %s %d %s %s" % (C.enc(r["l10n_text"]), m, r["ref_items"], r["l10n_items"])),
+            ("lint", "c05.lintxml %s %s %s" % (C.enc(r["l10n_text"]), r["l10n_items"], r["ref_items"])),
+            ("lint_noref", "c05.lintxml %s %s -" % (C.enc(r["l10n_text"]), r["l10n_items"]))]
+
+
+def files_stream(out, ctx, cases):
+    """`ContentComparer.add`, `.remove` and `.compare` with a filtering observer (verdicts error / warning / ignore for files,
+    entities and the `entity=""` probe of updateStats): whole report + merge outcome, model vs implementation; oracle: no raise"""
+    rng = ctx.rng("c05-files")
+    pool_ = [c for c in cases if c["fmt"] in PIPE_FORMATS and c["tag"] not in ("junk-key-clash", "junk-key-clash-l10n")]
+    fc = rng.sample(pool_, min(len(pool_), ctx.n(900, 5000)))
+    ks = [rng.choice([None, 0, 1, 2, 3, 4, 5]) for _ in fc]
+    res = pool.pmap("impl.pipeline", "impl_files", [[c["fmt"], c["ref"], c["l10n"], c["merge"], k] for c, k in zip(fc, ks)],
+                    timeout=10.0, batch=8)
+    lines, idx = [], []
+    for i, (c, k, r0) in enumerate(zip(fc, ks, res)):
+        r = r0.get("r", r0)
+        ci = {kk: v for kk, v in c.items() if kk != "state"}
+        if r0.get("exc"):
+            out.violations.append({"what": "%s: add/remove/compare with a filter: %s %s" % (c["fmt"], r0.get("exc"), r0.get("msg")),
+                                   "input": dict(ci, files=True, k=k), "finding": None})
+            continue
+        for op in ("comparef", "addfile", "removefile"):
+            info = r.get(op + "_exc")
+            if info:
+                fid = finding_of(c, "compare", info) if op == "comparef" else None
+                out.violations.append({"what": "%s: %s (filter %s) raised %s: %s at %s" % (c["fmt"], op, k, info["exc"], info["msg"], info["where"]),
+                                       "input": dict(ci, files=True, k=k), "finding": fid})
+        ext = (" " + r["ext"]) if r.get("ext") else ""
+        kk, m = ("-" if k is None else str(k)), (1 if c["merge"] else 0)
+        lines.append("c05.comparef %s %s %s %s %d%s" % (kk, c["fmt"], C.enc(r["ref_text"]), C.enc(r["l10n_text"]), m, ext))
+        idx.append((i, "comparef"))
+        lines.append("c05.addfile %s %s %s %d%s" % (kk, c["fmt"], C.enc(r["ref_text"]), m, ext))
+        idx.append((i, "addfile"))
+        lines.append("c05.removefile %s %s %d" % (kk, c["fmt"], m))
+        idx.append((i, "removefile"))
+    model = (drive(out, lines, "c05.files") or []) if ctx.model_ok else []
+    for (i, op), mo in zip(idx, model):
+        c, r = fc[i], res[i].get("r", res[i])
+        out.evaluations += 1
+        if r[op] != mo:
+            out.disagreements.append({"op": "c05." + op, "fmt": c["fmt"], "tag": c["tag"], "merge": c["merge"], "filter": ks[i],
+                                      "ref": r["ref_text"][:300], "l10n": r["l10n_text"][:300], "impl": r[op][:600], "model": mo[:600]})
+            out.count("pipeline.disagree.%s.%s" % (c["fmt"], op))
+        else:
+            out.nontrivial.add(("files", op, c["fmt"], r[op]))
+        out.count("files.%s.%s" % (c["fmt"], op))
+
+
+def odd_files(out, ctx):
+    """no parser for the file name (merge copies), a file that cannot be read (reported as an error, never raised)"""
+    rng = ctx.rng("c05-odd")
+    tasks = []
+    for i in range(ctx.n(36, 300)):
+        kind = ["noparser", "l10n-unreadable", "ref-unreadable"][i % 3]
+        text = "".join(rng.choice(["k = v\n", "junk\n", "\xff", "a=b\n", ""]) for _ in range(rng.randrange(0, 4)))
+        # copying an unreadable file into the merge stage is an I/O failure outside the property: merge staging only where all files are readable
+        tasks.append([kind, text, kind == "noparser" and rng.random() < 0.5])
+    res = pool.pmap("impl.pipeline", "impl_files_odd", tasks, timeout=10.0, batch=6)
+    for t, r0 in zip(tasks, res):
+        r = r0.get("r", r0)
+        out.evaluations += 1
+        out.count("odd." + t[0])
+        if r0.get("exc"):
+            out.violations.append({"what": "%s: %s %s" % (t[0], r0.get("exc"), r0.get("msg")), "input": {"odd": t}, "finding": None})
+            continue
+        for op in ("compare", "add", "remove"):
+            if not str(r.get(op, "")).startswith("ok") or "malformed" in str(r.get(op)):
+                out.violations.append({"what": "%s: %s on a file %s: %s %s" % (t[0], op, t[0], r.get(op), r.get(op + "_exc")),
+                                       "input": {"odd": t}, "finding": None})
+            else:
+                out.nontrivial.add(("odd", t[0], op, r[op]))
+
+
+# ---------------------------------------------------------------- decode: Parser.readFile on arbitrary bytes
+DEC_POOL = [b"\r", b"\n", b"\r\n", b"a", b"\xef\xbb\xbf", b"\xc3\xa9", b"\xe2\x82\xac", b"\xf0\x9f\x98\x80", b"\xc3", b"\xe2\x82", b"\xe2",
+            b"\xf0\x9f\x98", b"\xf0\x9f", b"\xf0", b"\xed\xa0\x80", b"\xed\x9f\xbf", b"\xe0\x80\x80", b"\xe0\xa0\x80", b"\xf0\x80\x80\x80",
+            b"\xf0\x90\x80\x80", b"\xf4\x8f\xbf\xbf", b"\xf4\x90\x80\x80", b"\xc0\x80", b"\xc1\xbf", b"\xc2\x80", b"\xf5", b"\xff", b"\x80", b"\xbf",
+            b"\x00", b"\xef\xbf\xbd", b"\xdf\xbf", b"\xef\xbf\xbf", b"\xee\x80\x80", b"\xed", b"\xf4", b"\xe0", b"k = v"]
+
+
+def gen_bytes(ctx):
+    rng = ctx.rng("c05-decode")
+    out = []
+    for i in range(ctx.n(2500, 20000)):
+        r = rng.random()
+        if r < 0.55:
+            b = b"".join(rng.choice(DEC_POOL) for _ in range(rng.randrange(0, 9)))
+        elif r < 0.8:
+            b = bytes(rng.randrange(256) for _ in range(rng.randrange(0, 14)))
+        else:
+            b = bytes(rng.choice([0x0d, 0x0a, 0x61, 0xc2, 0xe0, 0xed, 0xf0, 0xf4, 0x80, 0x9f, 0xa0, 0xbf, 0x90, 0x8f, 0xef, 0xbb]) for _ in range(rng.randrange(0, 12)))
+        out.append(b)
+    return out
+
+
+def decode_stream(out, ctx):
+    """`Parser.readFile` (open(errors="replace", newline=None)) vs `Pipe.decode`; oracle, independent of the model: the text has
+    no carriage return, no surrogate, and has U+FFFD unless the bytes are well-formed UTF-8 (strict codec as the judge)"""
+    data = gen_bytes(ctx)
+    res = pool.pmap("impl.pipeline", "impl_decode", [[b.decode("latin-1"), i] for i, b in enumerate(data)], timeout=10.0, batch=64)
+    model = (drive(out, ["c05.decode " + C.enc(b.decode("latin-1")) for b in data], "c05.decode") or []) if ctx.model_ok else []
+    for n, (b, r) in enumerate(zip(data, res)):
+        out.evaluations += 1
+        r = r.get("r", r) if isinstance(r, dict) else r
+        if not isinstance(r, str):
+            out.violations.append({"what": "readFile raised or hung on bytes: %r" % (r,), "input": {"bytes": b.decode("latin-1")}, "finding": None})
+            continue
+        text = C.dec(r)
+        try:
+            b.decode("utf-8")
+            well = True
+        except UnicodeDecodeError:
+            well = False
+        bad = None
+        if "\r" in text:
+            bad = "carriage return survives universal newlines"
+        elif any(0xD800 <= ord(ch) <= 0xDFFF for ch in text):
+            bad = "surrogate in decoded text"
+        elif not well and "�" not in text:
+            bad = "ill-formed bytes decoded without U+FFFD"
+        elif well and text != b.decode("utf-8").replace("\r\n", "\n").replace("\r", "\n"):
+            bad = "well-formed bytes not decoded to their text"
+        if bad:
+            out.violations.append({"what": "readFile: " + bad, "input": {"bytes": b.decode("latin-1")}, "finding": None})
+        elif n < len(model) and model[n] != r:
+            out.disagreements.append({"op": "c05.decode", "bytes": b.hex(), "impl": r[:300], "model": model[n][:300]})
+        if not well:
+            out.nontrivial.add(("decode", b))
+        out.count("decode." + ("wellformed" if well else "illformed"))
+
+
+# ---------------------------------------------------------------- regex step guard
+RX_OPENERS = ["", 'msgid "', 'msgstr "', '<!ENTITY k "', "<!ENTITY k '", "<!--", "k = ", "k=", "#define k ", "# ", "; ", "[",
+              '<!ENTITY % k SYSTEM "', "&", "%", "\\u", "width: ", "{ $", "-", '"', "#"]
+RX_CLASSES = ["a", " ", "\\", '"', "'", "-", "&", "%", "<", "\n", "0", "=", ";", ".", "\\u00", "ab ", "a\\", '\\"', "\t", "é", "&a;", "%S",
+              "a;", "a-", "<b>", " \n"]
+RX_N = 40
+RX_BUDGET = 3000000
+RX_RATIO = 4.6        # doubling the run may at most quadruple the steps (the unchanged regexes reach 3.98)
+
+
+def regex_guard(out, ctx):
+    """every regex of compare-locales (the regenerated `Gen.Pat.table`), counted engine: a run of 2n characters needs at most
+    ~4x the steps of a run of n characters, for every opener / character class sampled, at one position (`match`) and over all
+    start positions (`search`).  A regex that fails this is run on the real `re` under the watchdog."""
+    import json, os
+    meta = json.load(open(os.path.join(C.HARNESS, "gen_patterns.json")))
+    rng = ctx.rng("c05-rx")
+    combos = [(o, c) for o in RX_OPENERS for c in RX_CLASSES]
+    lines, idx = [], []
+    for m in meta:
+        take = rng.sample(combos, min(len(combos), ctx.n(110, len(combos))))
+        for o, c in take:
+            for mode in ("match", "search"):
+                for k in (1, 2):
+                    lines.append("c05.rxsteps @%s %s %d %s" % (m["name"], mode, RX_BUDGET, C.enc(o + c * (RX_N * k))))
+                    idx.append((m["name"], o, c, mode, k))
+    model = (drive(out, lines, "c05.rxsteps") or []) if ctx.model_ok else []
+    res = dict(zip(idx, model))
+    by_name = {m["name"]: m for m in meta}
+    suspects = {}
+    for (name, o, c, mode, k), r in res.items():
+        if k != 1:
+            continue
+        out.evaluations += 1
+        r2 = res.get((name, o, c, mode, 2))
+        over = r == "over" or r2 == "over"
+        if not over:
+            a, b = int(r), int(r2)
+            over = b > RX_RATIO * max(a, 50)
+            out.count("rx.%s" % ("linear" if b <= 2.4 * max(a, 50) else "quadratic" if not over else "worse"))
+        if over:
+            suspects.setdefault((name, mode), (o, c, r, r2))
+    if not suspects:
+        return
+    tasks, keys = [], []
+    for (name, mode), (o, c, r, r2) in sorted(suspects.items()):
+        m = by_name[name]
+        tasks.append([m["pattern"], m["flags"], o + c * 120, mode])
+        keys.append((name, mode, o, c, r, r2))
+    times = pool.pmap("impl.pipeline", "impl_rx_time", tasks, timeout=4.0, batch=1)
+    for (name, mode, o, c, r, r2), t, task in zip(keys, times, tasks):
+        t = t.get("r", t)
+        if t.get("exc") == "Hang" or (isinstance(t.get("seconds"), float) and t["seconds"] > 2.0):
+            out.violations.append({"what": "regex %s does not terminate in reasonable time: re.%s on %r + %r * 120 (model engine: %s steps for %d, %s for %d characters)" % (
+                name, mode, o, c, r, RX_N, r2, 2 * RX_N), "input": {"regex": name, "pattern": task[0], "flags": task[1], "text": task[2], "mode": mode}, "finding": None})
+        else:
+            out.disagreements.append({"op": "c05.rxsteps", "regex": name, "mode": mode, "opener": o, "run": c,
+                                      "model": "steps %s -> %s when the run doubles" % (r, r2), "impl": "re answers in %s s" % t.get("seconds")})
+
+
+def run(ctx):
+    out = Outcome()
+    out.rule = ("per file type: reference and localization from the record generators, then byte-level mutations (delete/insert/duplicate/"
+                "splice, invalid UTF-8 sequences, NULs, unbalanced quotes and tags), truncation, arbitrary bytes on one or both sides; directed "
+                "families (junk-key clash, PO repr, properties / dtd checks, junk copied with its reference, long runs of one token class in "
+                "an unterminated lexical state); half of the cases with merge staging; non-trivial = the comparison produced at least one "
+                "detail or lint result; distinct = distinct (format, localized bytes)")
+    cases = gen_cases(ctx)
+    res = pool.pmap("impl.robust", "impl_robust", [[c["fmt"], c["ref"], c["l10n"], c["merge"]] for c in cases],
+                    timeout=10.0, batch=8)
+    judge(out, cases, res)
+    # ---- long runs, two waves with a short deadline; a state that hangs in wave 1 is not tried again with longer runs
+    hung_states, long_ok = set(), []
+    for wave in (1, 2):
+        lc = [c for c in gen_long(ctx, wave) if c["state"] not in hung_states]
+        lres = pool.pmap("impl.robust", "impl_robust", [[c["fmt"], c["ref"], c["l10n"], c["merge"]] for c in lc], timeout=3.0, batch=4)
+        for c in judge(out, lc, lres):
+            hung_states.add(c["state"])
+        long_ok += [c for c, r in zip(lc, lres) if r.get("exc") != "Hang"]
+    # ---- correspondence of the composed pipeline model (compare + toJSON + merge outcome, lint with / without reference)
+    pcases = [c for c in cases + long_ok if c["fmt"] in PIPE_FORMATS]
+    pres = pool.pmap("impl.pipeline", "impl_pipeline", [[c["fmt"], c["ref"], c["l10n"], c["merge"]] for c in pcases],
+                     timeout=10.0, batch=8)
+    diff_stream(out, ctx, pcases, pres, lines_regex, "c05")
+    # ---- Fluent / Android: the pipeline from the external parser's output on
+    for fmt, fn, mk in (("ftl", "impl_pipeline_ftl", lines_ftl), ("android", "impl_pipeline_android", lines_android)):
+        rng = ctx.rng("c05-sub", fmt)
+        fc = [c for c in cases + long_ok if c["fmt"] == fmt]
+        DIRECTED = ("junk-copy", "long-run", "ufffd", "ftl-directed", "android-directed", "ftl-deep-nesting", "ftl-deep-nesting-ref")
+        directed = [c for c in fc if c["tag"] in DIRECTED]
+        rest = [c for c in fc if c["tag"] not in DIRECTED]
+        fc = directed + rng.sample(rest, min(len(rest), ctx.n(300, 2500)))
+        fres = pool.pmap("impl.pipeline", fn, [[c["ref"], c["l10n"], c["merge"]] for c in fc], timeout=10.0, batch=8)
+        diff_stream(out, ctx, fc, fres, mk, "c05")
+    files_stream(out, ctx, cases)
+    odd_files(out, ctx)
+    decode_stream(out, ctx)
+    regex_guard(out, ctx)
     # correspondence of the base (encoding) check model
     from compare_locales.checks.base import Checker
 
@@ -384,10 +906,33 @@ def replay(payload):
     res = []
     for v in payload.get("violations", []):
         c = v["input"]
+        if "odd" in c:
+            r = pool.pmap("impl.pipeline", "impl_files_odd", [c["odd"]], timeout=30.0)[0]
+            r = r.get("r", r)
+            res.append({"input": c, "oracle": ["%s: %s" % (op, r.get(op)) for op in ("compare", "add", "remove") if not str(r.get(op, "")).startswith("ok")]})
+            continue
+        if "regex" in c:
+            t = pool.pmap("impl.pipeline", "impl_rx_time", [[c["pattern"], c["flags"], c["text"], c["mode"]]], timeout=6.0)[0]
+            t = t.get("r", t)
+            res.append({"input": c, "oracle": ["does not terminate in reasonable time"] if (t.get("exc") == "Hang" or t.get("seconds", 0) > 2.0) else []})
+            continue
         if "fmt" not in c:
             continue
+        if c.get("files"):
+            r = pool.pmap("impl.pipeline", "impl_files", [[c["fmt"], c["ref"], c["l10n"], c["merge"], c.get("k")]], timeout=30.0)[0]
+            r = r.get("r", r)
+            res.append({"input": c, "oracle": ["%s raised %s" % (st, r[st + "_exc"]) for st in ("comparef", "addfile", "removefile") if r.get(st + "_exc")]})
+            continue
         if c.get("fresh"):
-            r = pool.pmap("impl.pipeline", "impl_pipeline", [[c["fmt"], c["ref"], c["l10n"], c["merge"]]], timeout=30.0)[0]
+            if c["fmt"] == "ftl":
+                r = pool.pmap("impl.pipeline", "impl_pipeline_ftl", [[c["ref"], c["l10n"], c["merge"]]], timeout=30.0)[0]
+            elif c["fmt"] == "android":
+                r = pool.pmap("impl.pipeline", "impl_pipeline_android", [[c["ref"], c["l10n"], c["merge"]]], timeout=30.0)[0]
+            else:
+                r = pool.pmap("impl.pipeline", "impl_pipeline", [[c["fmt"], c["ref"], c["l10n"], c["merge"]]], timeout=30.0)[0]
+            if r.get("exc") == "Hang":
+                res.append({"input": c, "oracle": ["does not terminate"]})
+                continue
             r = r.get("r", r)
             res.append({"input": c, "oracle": ["%s raised %s" % (st, r[st + "_exc"]) for st in ("compare", "lint", "lint_noref") if r.get(st + "_exc")]})
             continue
